@@ -257,6 +257,15 @@ let proto file =
              | [ _; _; k; a; v ] -> (try Some (((match k with "1" -> AMesh | "2" -> AImage | _ -> AAudio), nd a), nd v) with _ -> None)
              | _ -> None) (find "DL") in
          let dls = List.map (fun ((k, a), v) -> ((k, a), v)) dls in
+         (* downloads requested and not yet applied, after this frame (real): kind:asset:under-way *)
+         let real_pending = List.concat_map (fun l -> match split_ws l with
+             | [ _; _; "-" ] -> []
+             | [ _; _; items ] -> List.filter_map (fun it -> match String.split_on_char ':' it with
+                   | [ k; a; _ ] -> (try Some ((match k with "1" -> AMesh | "2" -> AImage | _ -> AAudio), nd a) with _ -> None)
+                   | _ -> None) (String.split_on_char ',' items)
+             | _ -> []) (find "PEND") in
+         (* the oracle flag of an applied download: no other download of the id is under way afterwards *)
+         let dls_flagged = List.map (fun ((k, a), v) -> (((k, a), v), not (List.mem (k, a) real_pending))) dls in
          (* request() runs inside the receiver: an announcement handled in THIS frame may already have
             its download applied by a process_*_assets system that runs later in the same frame *)
          List.iter (fun l -> match split_ws l with
@@ -282,7 +291,7 @@ let proto file =
                   if not (List.exists (fun o -> List.mem v (served o)) owners) then
                     diff "%s frame of peer %d: downloaded asset %s has content %s, the model's owner(s) served %s" (where ()) pi (ds a) (ds v)
                       (String.concat "/" (List.map (fun o -> String.concat "," (List.map ds (served o))) owners)))) dls;
-         let o = { fo_downloads = dls; fo_conn_events = evs; fo_clients = List.map n_of_int clients_pre; fo_status = st;
+         let o = { fo_downloads = dls_flagged; fo_conn_events = evs; fo_clients = List.map n_of_int clients_pre; fo_status = st;
                    fo_srv_poll = (if pi = 0 || true then List.map n_of_int froms else []);
                    fo_cli_poll = nat_of_int (List.length froms) } in
          g := gstep !g (StFrame (pn, o));
@@ -294,6 +303,15 @@ let proto file =
                  if not (List.mem v old) then Hashtbl.replace served_hist (pn, k, a) (v :: old)
              | None -> ()) (cache_list pr);
          List.iter (fun ((k', a'), o) -> Hashtbl.replace ever_pending (pi, k', a', o) true) (pending_list pr);
+         (* the downloads requested and not yet applied are the same ids in the model and in the real registry *)
+         if find "PEND" <> [] then begin
+           let model_pending = List.sort_uniq compare (List.map (fun ((k', a'), _) -> (k', a')) (pending_list pr)) in
+           let real_p = List.sort_uniq compare real_pending in
+           incr checked;
+           if model_pending <> real_p then
+             diff "%s frame of peer %d: downloads requested and not yet applied: real [%s], model [%s]" (where ()) pi
+               (String.concat "," (List.map (fun (_, a) -> ds a) real_p)) (String.concat "," (List.map (fun (_, a) -> ds a) model_pending))
+         end;
          (* panic *)
          let real_panic = find "PANIC" in
          (match real_panic, pr.p_panic with
